@@ -3065,3 +3065,114 @@ func ruleLineVerbatim(r *Run) {
 	}
 	r.Min("rendered_line_text_stores", n, 1)
 }
+
+// ---------------------------------------------------------------------------
+// R-REGISTRY-ENTRY-IMMUTABLE (C13, C15): an abstract numbering definition that is in the registry
+// is shared by every list item that was given it (and by every later request with the same memo
+// key).  Nothing stores through an object reached from an entry of NumberingManager.abstractNums
+// — directly, or through the pointers inside a by-value copy of an entry (`c := *entry` shares its
+// *Level values).  A new definition is built from fresh objects.
+// ---------------------------------------------------------------------------
+
+func ruleRegistryEntryImmutable(r *Run) {
+	p := r.P
+	n := 0
+	isRegistry := func(v ssa.Value) bool {
+		fv, _ := fieldOfAddr(stripLoadsAddr(v))
+		return fieldIs(p, fv, pkgDoc, "NumberingManager", "abstractNums")
+	}
+	for _, fn := range p.ModFuncs() {
+		if fn.Pkg == nil || fn.Pkg.Pkg.Path() != pkgDoc {
+			continue
+		}
+		derived := map[ssa.Value]bool{}
+		allInstrs(fn, func(in ssa.Instruction) {
+			switch x := in.(type) {
+			case *ssa.Lookup:
+				if isRegistry(x.X) {
+					derived[x] = true
+				}
+			case *ssa.Range:
+				if isRegistry(x.X) {
+					derived[x] = true
+				}
+			}
+		})
+		if len(derived) == 0 {
+			continue
+		}
+		n++
+		localCopies := map[*ssa.Alloc]bool{}
+		for changed := true; changed; {
+			changed = false
+			allInstrs(fn, func(in ssa.Instruction) {
+				if st, ok := in.(*ssa.Store); ok && derived[st.Val] {
+					if al, ok := st.Addr.(*ssa.Alloc); ok && !derived[al] {
+						// a by-value copy (or the pointer itself) kept in a local variable
+						derived[al], localCopies[al] = true, true
+						changed = true
+					}
+				}
+				v, ok := in.(ssa.Value)
+				if !ok || derived[v] {
+					return
+				}
+				switch x := in.(type) {
+				case *ssa.Next, *ssa.Extract, *ssa.UnOp, *ssa.FieldAddr, *ssa.Field, *ssa.IndexAddr, *ssa.Index, *ssa.Phi, *ssa.Slice:
+					for _, op := range x.Operands(nil) {
+						if *op != nil && derived[*op] {
+							derived[v] = true
+							changed = true
+							return
+						}
+					}
+				}
+			})
+		}
+		var bad *ssa.Store
+		allInstrs(fn, func(in ssa.Instruction) {
+			st, ok := in.(*ssa.Store)
+			if !ok || !derived[st.Addr] {
+				return
+			}
+			// a store into the local variable itself (its own struct fields) changes the copy only;
+			// a store through a pointer that came out of the entry changes the entry
+			a := st.Addr
+			through := false
+			for i := 0; i < 12; i++ {
+				switch x := a.(type) {
+				case *ssa.FieldAddr:
+					a = x.X
+					continue
+				case *ssa.IndexAddr:
+					a = x.X
+					continue
+				case *ssa.UnOp:
+					if x.Op == token.MUL {
+						through = true // a loaded pointer / slice on the way
+						a = x.X
+						continue
+					}
+				case *ssa.Extract, *ssa.Lookup, *ssa.Next, *ssa.Phi:
+					through = true
+				}
+				break
+			}
+			if al, ok := a.(*ssa.Alloc); ok && localCopies[al] && !through {
+				return
+			}
+			if _, isAlloc := st.Addr.(*ssa.Alloc); isAlloc {
+				return
+			}
+			bad = st
+		})
+		pos := fn.Pos()
+		if bad != nil {
+			pos = bad.Pos()
+		}
+		r.Check("registry-entry-immutable", shortName(topLevel(fn)), pos, bad == nil,
+			fmt.Sprintf("%s reads definitions out of the numbering registry: %s", shortName(topLevel(fn)),
+				map[bool]string{true: "it stores through none of them", false: "it stores through an object reached from a registered definition (a struct copy shares the *Level values) — every list that was given this definition, and every later request with the same key, changes with it"}[bad == nil]))
+	}
+	r.Min("functions_reading_the_numbering_registry", n, 2)
+}
